@@ -83,16 +83,29 @@ def zmax(a, b):
     return z3.If(a >= b, a, b)
 
 
-def bounded_inputs(S, tr, lim=1000):
+def bounded_inputs(S, tr, ilim=1000, flim=64):
     """range restriction used only to pick a replayable model (int32 / float32 friendly), never in the main query"""
     out = []
     for n, av in zip(tr.in_names, tr.in_avals):
         if "key" in str(av.dtype) or np.dtype(av.dtype) == np.bool_:
             continue
+        lim = ilim if np.issubdtype(np.dtype(av.dtype), np.integer) else flim
         for x in S[n].reshape(-1):
             if isinstance(x, z3.ExprRef):
                 out.append(z3.And(x >= -lim, x <= lim))
     return out
+
+
+def same_value(got, exp):
+    """stored values are copied, never computed with: the real code must reproduce the model's value exactly (as float32)"""
+    if exp is None:
+        return False
+    g = np.asarray(got)
+    if g.dtype == np.bool_:
+        return bool(g) == bool(exp)
+    if np.issubdtype(g.dtype, np.integer):
+        return int(g) == int(exp)
+    return bool(np.float32(g) == np.float32(float(exp)))
 
 
 # ------------------------------------------------------------------------------------------------ add
@@ -162,14 +175,14 @@ def sec_add(ck, C, validate):
                 for k in np.ndindex(*av.shape[1:]):
                     exp = solve.num(res.value(H(it, L, k, av.dtype)(z3.IntVal(tj))))
                     got = np.asarray(m[L])[(j,) + k]
-                    if exp is None or not np.isclose(float(got), float(exp), rtol=1e-3, atol=1e-3):
+                    if not same_value(got, exp):
                         bad.append({"slot": j, "leaf": L, "elem": list(k), "real_code": float(got), "content_of_insertion": tj, "expected": exp})
         info = {"function": tr.label, "capacity": C, "position_before": pv,
                 "inputs": {n: np.asarray(concrete.real_to_float(v)).reshape(-1)[:12].tolist() for n, v in zip(tr.in_names, vals)},
                 "after_add": {n: np.asarray(concrete.real_to_float(v)).reshape(-1)[:12].tolist() for n, v in m.items()},
                 "invariant_failures": bad[:8]}
         return bool(bad), info
-    small = [p <= P_REPLAY_MAX] + bounded_inputs(S, tr, lim=P_REPLAY_MAX + 10)
+    small = [p <= P_REPLAY_MAX] + bounded_inputs(S, tr, ilim=P_REPLAY_MAX + 10)
     ck.prove(f"add.inductive@C={C}", A, goal, replay=rp_add, margin_goal=implies(conj(small), goal))
     ck.witness(f"witness.inv_after_wraparound@C={C}", A + [p > C])
     ck.witness(f"witness.inv_partially_filled@C={C}", A + [p > 0, p < C] if C > 1 else A + [p == 0])
@@ -213,7 +226,7 @@ def sec_add(ck, C, validate):
                 "inputs": {n: np.asarray(concrete.real_to_float(v)).reshape(-1)[:12].tolist() for n, v in inp.items()},
                 "after_add": {n: np.asarray(concrete.real_to_float(v)).reshape(-1)[:12].tolist() for n, v in m.items()}}
         return not ok_slots, info
-    small2 = bounded_inputs(S2, tr, lim=1000)
+    small2 = bounded_inputs(S2, tr)
     g2 = disj([same_slot(s) for s in range(C)])
     ck.prove(f"add.fields_same_slot@C={C}", [p2 >= 0], g2, replay=rp_slot, margin_goal=implies(conj(small2), g2))
     if C > 1:
@@ -252,10 +265,22 @@ def sec_sample(ck, C, E, B, validate=False, controls=False):
     rb = mkbuf(C, E)
     cfg = (f"E={E}," if E else "") + f"C={C},B={B}"
     fam = "sample.vector_fill_levels." if E else "sample."
-    with stubs.prng_stubs():
-        tr = trace(lambda b, k: b.sample(B, key=k), rb, jr.key(0), argnames=["buf", "key"], label="ReplayBuffer.sample" + (f"[vmapped E={E}]" if E else ""))
+
+    def sample_fn(b, k):
+        # jax.random.choice is the contract stub whenever this function runs (tracing, translator validation, replay)
+        with stubs.prng_stubs():
+            return b.sample(B, key=k)
+    tr = trace(sample_fn, rb, jr.key(0), argnames=["buf", "key"], label="ReplayBuffer.sample" + (f"[vmapped E={E}]" if E else ""))
     if validate:
         ck.encoded(tr)
+
+        def gen(name, av, rng):
+            if name != "buf_position":
+                return None
+            if not E:
+                return jnp.asarray(rng.integers(B, 3 * C + 1), dtype=jnp.int32)
+            return jnp.asarray([rng.integers(C, 3 * C + 1), rng.integers(max(0, B - C), 2 * C + 1)], dtype=jnp.int32)
+        concrete.validate(ck, tr, n=2, seed=ck.seed, gen=gen)
     it = Interp()
     S = tr.symbols(it)
     out = tr.run(it, S)
@@ -296,8 +321,7 @@ def sec_sample(ck, C, E, B, validate=False, controls=False):
         w = concrete.ModelWorld(res, it.uf_apps, keys)
         vals = [concrete.model_leaf(res, S[n], av, keys) for n, av in zip(tr.in_names, tr.in_avals)]
         inp = dict(zip(tr.in_names, vals))
-        with stubs.prng_stubs():
-            m = dict(zip(tr.out_names, concrete.run_real(tr, vals, w)))
+        m = dict(zip(tr.out_names, concrete.run_real(tr, vals, w)))
         pv = np.asarray(inp["buf_position"]).reshape(-1)
         flat = {L: np.asarray(inp["buf_" + L]).reshape((len(envs) * C,) + tuple(avs[L].shape[1:])) for L in leaves}
         st_mask = np.array([j < min(int(pv[ei]), C) for ei in range(len(envs)) for j in range(C)])
@@ -318,7 +342,7 @@ def sec_sample(ck, C, E, B, validate=False, controls=False):
                 "slot_tags(flat)": tags_in.tolist(), "returned_tags": ot.tolist(), "draw_bound_to_model": w.hits, "failures": bad[:6],
                 "note": "the stubbed sampler returns the model's draw (it satisfies the documented contract of jax.random.choice for the arguments the real code passed)"}
         return bool(bad), info
-    small = [q <= P_REPLAY_MAX for q in pos] + bounded_inputs(S, tr, lim=P_REPLAY_MAX)
+    small = [q <= P_REPLAY_MAX for q in pos] + bounded_inputs(S, tr, ilim=P_REPLAY_MAX)
     for oid, g, what in ((fam + "only_stored" if E else "sample.only_stored", g_stored, "stored"),
                          (fam + "distinct" if E else "sample.distinct", g_distinct, "distinct"),
                          (fam + "fields_aligned" if E else "sample.fields_aligned", g_aligned, "aligned")):
